@@ -14,6 +14,7 @@ FUNCTIONS = [
 ]
 BOUNDS = {
     "bins": "4-6 bins over up to 3 autosomes + X + Y (quick), 7 (thorough); every log2 symbolic in [-30, 10] (null-coverage bins reachable)",
+    "depth column": "configurations with a depth column whose entries are solver-chosen from {0, 5} (depth 0 = null coverage)",
     "estimators": "median and mean (as functions and by name), by_chrom on/off, skip_low on/off",
     "PAR": "one X bin with symbolic coordinates when a PAR genome is given",
     "naming": "chrN / N / no autosome-like names",
@@ -36,7 +37,9 @@ def est_term(name, xs):
     return Sum(xs) / len(xs)
 
 
-def h_center(ctx, chroms, estimator, by_chrom, skip_low, genome=None, as_name=False):
+def h_center(ctx, chroms, estimator, by_chrom, skip_low, genome=None, as_name=False, with_depth=False):
+    """with_depth: the table also has a depth column, each bin's depth solver-chosen from {0, 5}: a
+    null-coverage bin is one with log2 below the cut-off OR depth 0 (drop_low_coverage)."""
     n = len(chroms)
     starts = [100 * (i + 1) for i in range(n)]
     ends = [100 * (i + 1) + 50 for i in range(n)]
@@ -49,7 +52,12 @@ def h_center(ctx, chroms, estimator, by_chrom, skip_low, genome=None, as_name=Fa
             starts[i], ends[i] = s, e
             xcls[i] = bool(in_par(genome, "X", s, e))
     logs = [ctx.real(f"l{i}", -30, 10) for i in range(n)]
-    cna = make_cna({"chromosome": chroms, "start": starts, "end": ends, "gene": ["g"] * n, "log2": list(logs)})
+    cols = {"chromosome": chroms, "start": starts, "end": ends, "gene": ["g"] * n, "log2": list(logs)}
+    depths = None
+    if with_depth:
+        depths = [[0.0, 5.0][ctx.choice(f"d{i}", [0, 1])] for i in range(n)]
+        cols["depth"] = list(depths)
+    cna = make_cna(cols)
     import pandas as pd
 
     est = estimator if as_name else {"median": pd.Series.median, "mean": pd.Series.mean}[estimator]
@@ -69,7 +77,7 @@ def h_center(ctx, chroms, estimator, by_chrom, skip_low, genome=None, as_name=Fa
     else:
         sel = list(range(n))
     if skip_low:
-        kept = [i for i in sel if not bool(logs[i] < LOW)]
+        kept = [i for i in sel if not (bool(logs[i] < LOW) or (depths is not None and depths[i] == 0))]
         ctx.cover("null-coverage bin ignored", len(kept) < len(sel))
         if any(auto_like) and not any(auto_like[i] for i in kept):
             return  # outside the claim (see NOT_COVERED)
@@ -192,6 +200,9 @@ def _center_cfgs():
                     out.append(c)
     out.append({"chroms": ["chr1", "chr1", "chr2", "chrX"], "estimator": "median", "by_chrom": True, "skip_low": False, "as_name": True})
     out.append({"chroms": ["chr1", "chr1", "chr2", "chrX"], "estimator": "mean", "by_chrom": False, "skip_low": True, "as_name": True})
+    out.append({"chroms": ["chr1", "chr1", "chr2", "chrX"], "estimator": "mean", "by_chrom": False, "skip_low": True, "with_depth": True})
+    out.append({"chroms": ["chr1", "chr1", "chr2", "chrX"], "estimator": "median", "by_chrom": True, "skip_low": True, "with_depth": True, "tier": "thorough"})
+    out.append({"chroms": ["chr1", "chr2", "chrX"], "estimator": "mean", "by_chrom": True, "skip_low": False, "with_depth": True})
     for genome in ("grch37", "grch38"):
         for est in ("median", "mean"):
             for by_chrom in (True, False):
